@@ -51,6 +51,10 @@ CLAIMS = {
                 text="Census of every iteration over std HashMap/HashSet in the workspace classified by sink (commutative vs order-leaking); loop-carried state of the bank loop; nondeterminism-source census (rand/time/thread/env/pointer casts) in the event closure; faer Parallelism::None.",
                 note="Bit-for-bit float reproducibility given identical operation order is a hardware/libm property (trusted).",
                 technique="type-resolved call census + sink classification + loop-carried-state analysis"),
+    "C13": dict(level="other", design="§5 C13",
+                text="Necessary structural conditions of the rotation/mirror symmetry, decided exhaustively on the finite index domains: complete input/output tables of wire_to_pad_column (256 wires), pad_column_to_wires (32 columns), range_to_indices/range_to_len (all 65k block descriptors) and TpcPadRow::z (576 rows), obtained by evaluating the formulas of every return path; rotation equivariance / inverse / cyclic-order / antisymmetry relations checked on those tables; label and column wiring of avalanches(), wire_range_deconvolution, y_matrix by term shape; symbolic shift-invariance (Toeplitz) and symmetry of the induction-matrix index; ring-distance coupling of a full-ring block.",
+                note="Bit-identical equivariance of the floating-point kernels, the seam merge inside contiguous_ranges and the mirror image of the pad centroid are NOT decided. Known finding F7: a block covering all 256 wires is solved with a Toeplitz (non-circulant) induction matrix, so the full-ring case of the property fails (KNOWN-FINDING line; demo findings/f7_full_ring_rotation.rs).",
+                technique="finite-domain evaluation of extracted path formulas (complete function tables) + symbolic substitution on index polynomials + def-use term shape"),
     "C14": dict(level="other", design="§5 C14",
                 text="NaN-guard dominance: divisions by h in Helix::closest_t dominated by the |h| >= eps edge; collinearity and theta==0 guards in the initial-guess code; constant agreement min cluster size >= 3; Track::try_from error discipline; t range (C16).",
                 note="That NaN never reaches the cost functions / sorts is NOT decided (continuous numerics).",
@@ -79,7 +83,6 @@ CLAIMS = {
 
 NA = {
     "C12": "statistical accuracy bound (percentiles of |dz| over a population from an external forward model) on a numerical pipeline; nothing in the shape of the code bounds those quantities — no sound static argument in reach",
-    "C13": "bit-identical equivariance relates pairs of executions of floating-point kernels (banded Cholesky, greedy deconvolution); the known full-ring defect is a modelling error no structural rule separates from the correct matrix without evaluating it; the static fragments (shift constants) are checked under C08",
     "C17": "numerical equivalence of an optimised float loop with its definition, exact power-of-two covariance and recovery tolerances are relations between numerical executions; a static sign domain loses the residuals at the first subtraction",
 }
 
